@@ -21,6 +21,7 @@ struct BCase {
     std::string desc;
     std::map<std::string, std::string> files;   // VFS content (schemas)
     std::string docHead = DOC_HEAD;
+    std::string wOpen = "<t:w>", wClose = "</t:w>", docTail = "</t:r>\n";
     std::vector<Item> items;
     int schemaExpect = 0;            // 0 must load without error, 1 must be reported as erroneous, 2 no claim, 3 erroneous under full checking only
     std::string schemaWhy;
@@ -97,8 +98,8 @@ static std::string joinv(const std::vector<std::string>& v) { std::string o; for
 static void run_bcase(uint64_t idx, Ctx& c) {
     const BCase& bc = BCASES[idx];
     std::string doc = bc.docHead;
-    for (auto& it : bc.items) doc += "<t:w>" + it.xml + "</t:w>\n";
-    doc += "</t:r>\n";
+    for (auto& it : bc.items) doc += bc.wOpen + it.xml + bc.wClose + "\n";
+    doc += bc.docTail;
     size_t nExpValid = 0, nExpInvalid = 0;
     for (auto& it : bc.items) { if (it.expect == 0) nExpValid++; else if (it.expect == 1) nExpInvalid++; }
     c.count("schemas");
@@ -593,6 +594,43 @@ static void build_wild(const std::string& tier) {
     }
 }
 
+// the same without a target namespace (xsi:noNamespaceSchemaLocation): ##other = any namespace-qualified element, ##targetNamespace = ##local = absent
+static const char* const NONS_DOC_HEAD = "<r xmlns:x=\"urn:x\" xmlns:xsi=\"http://www.w3.org/2001/XMLSchema-instance\" xsi:noNamespaceSchemaLocation=\"s.xsd\">\n";
+static void build_wild_nons() {
+    struct NS { const char* attr; bool local, x, other; };
+    std::vector<NS> nss = {{"##any", true, true, true}, {"##other", false, true, true}, {"##targetNamespace", true, false, false}, {"##local", true, false, false}, {"urn:x", false, true, false}};
+    struct CH { const char* xml; char nsclass; int decl; };
+    std::vector<CH> chs = {{"<a/>", 'l', 1}, {"<a>z</a>", 'l', 2}, {"<d/>", 'l', 0}, {"<x:x>5</x:x>", 'x', 1}, {"<x:x>z</x:x>", 'x', 2}, {"<x:y/>", 'x', 0}, {"<u:z xmlns:u=\"urn:u\"/>", 'o', 0}, {"", '-', 0}};
+    for (auto& ns : nss) for (int pc = 0; pc < 3; pc++) {
+        BCase bc;
+        bc.desc = std::string("wild-nons namespace='") + ns.attr + "' processContents=" + WPC_ATTR[pc];
+        bc.docHead = NONS_DOC_HEAD; bc.wOpen = "<w>"; bc.wClose = "</w>"; bc.docTail = "</r>\n";
+        std::string s = "<xs:schema xmlns:xs=\"http://www.w3.org/2001/XMLSchema\">\n<xs:import namespace=\"urn:x\" schemaLocation=\"x.xsd\"/>\n";
+        s += "<xs:element name=\"r\"><xs:complexType><xs:sequence><xs:element ref=\"w\" minOccurs=\"0\" maxOccurs=\"unbounded\"/></xs:sequence></xs:complexType></xs:element>\n";
+        s += "<xs:element name=\"w\"><xs:complexType><xs:sequence><xs:element ref=\"e\"/></xs:sequence></xs:complexType></xs:element>\n";
+        s += "<xs:element name=\"a\"><xs:complexType/></xs:element>\n";
+        s += std::string("<xs:element name=\"e\"><xs:complexType><xs:sequence><xs:any namespace=\"") + ns.attr + "\" processContents=\"" + WPC_ATTR[pc] + "\"/></xs:sequence></xs:complexType></xs:element>\n</xs:schema>\n";
+        bc.files["/v/s.xsd"] = s;
+        bc.files["/v/x.xsd"] = "<xs:schema xmlns:xs=\"http://www.w3.org/2001/XMLSchema\" targetNamespace=\"urn:x\" elementFormDefault=\"qualified\">\n<xs:element name=\"x\" type=\"xs:integer\"/>\n</xs:schema>\n";
+        for (auto& ch : chs) {
+            Item it;
+            it.xml = std::string("<e>") + ch.xml + "</e>";
+            bool invalid = false; std::string why = "valid";
+            if (ch.nsclass == '-') { invalid = true; why = "cvc-complex-type.2.4: required wildcard particle missing"; }
+            else {
+                bool admitted = ch.nsclass == 'l' ? ns.local : ch.nsclass == 'x' ? ns.x : ns.other;
+                if (!admitted) { invalid = true; why = "cvc-wildcard-namespace: namespace not admitted by the wildcard (no target namespace)"; }
+                else if (pc == 0 && ch.decl == 0) { invalid = true; why = "strict: no global declaration available"; }
+                else if (pc != 2 && ch.decl == 2) { invalid = true; why = "declared element with invalid content under strict/lax"; }
+            }
+            it.expect = invalid ? 1 : 0;
+            it.why = why;
+            bc.items.push_back(it);
+        }
+        BCASES.push_back(bc);
+    }
+}
+
 // ================================================================================================ schema assembly (metamorphic + reference)
 // The same abstract component  e : { (a, b?) ; attribute p : xs:integer required }  written in different ways.  Instances are
 // abstract (child word over {a,b,d}, p present/absent) and rendered per variant; every variant must give the same verdict vector,
@@ -640,6 +678,11 @@ static void build_assembly(const std::string& tier) {
     // V10: attribute declared globally and referenced (then it is qualified: t:p) - separate rendering of the attribute
     add("global-attribute-ref", std::string(XSD_HEAD) + RW + w_decl("<xs:element ref=\"t:e\"/>") + AB_GLOBAL + "<xs:attribute name=\"p\" type=\"xs:integer\"/>\n<xs:complexType name=\"T\">" + SEQ_REF +
                                     "<xs:attribute ref=\"t:p\" use=\"required\"/></xs:complexType>\n<xs:element name=\"e\" type=\"t:T\"/>\n" + END, "t:", "urn:t|T");
+    // V11: no target namespace at all, schema named by xsi:noNamespaceSchemaLocation
+    add("no-namespace", "<xs:schema xmlns:xs=\"http://www.w3.org/2001/XMLSchema\">\n"
+                        "<xs:element name=\"r\"><xs:complexType><xs:sequence><xs:element ref=\"w\" minOccurs=\"0\" maxOccurs=\"unbounded\"/></xs:sequence></xs:complexType></xs:element>\n"
+                        "<xs:element name=\"w\"><xs:complexType><xs:sequence><xs:element ref=\"e\"/></xs:sequence></xs:complexType></xs:element>\n"
+                        "<xs:complexType name=\"T\">" + SEQ_LOCAL + ATT_P + "</xs:complexType>\n<xs:element name=\"e\" type=\"T\"/>\n" + END, "", "|T");
     const char SYMS[3] = {'a', 'b', 'd'};
     for (size_t vi = 0; vi < vs.size(); vi++) {
         V& v = vs[vi];
@@ -647,7 +690,8 @@ static void build_assembly(const std::string& tier) {
         bc.desc = "assembly variant=" + v.name;
         bc.files = v.files;
         bc.docHead = "<t:r xmlns:t=\"urn:t\" xmlns:u=\"urn:u\" xmlns:x=\"urn:x\" xmlns:xsi=\"http://www.w3.org/2001/XMLSchema-instance\" xsi:schemaLocation=\"urn:t s.xsd\">\n";
-        std::string eName = v.name == "import-element" ? "u:e" : "t:e";
+        std::string eName = v.name == "import-element" ? "u:e" : v.name == "no-namespace" ? "e" : "t:e";
+        if (v.name == "no-namespace") { bc.docHead = NONS_DOC_HEAD; bc.wOpen = "<w>"; bc.wClose = "</w>"; bc.docTail = "</r>\n"; }
         std::string pName = v.name == "global-attribute-ref" ? "t:p" : "p";
         for (uint64_t wi = 0; wi < words_upto(3, 3); wi++) for (int pk = 0; pk < 3; pk++) {
             std::vector<int> w = word_at(wi, 3, 3);
@@ -673,7 +717,7 @@ static bool setup_space(const std::string& space, const std::string& tier, const
     if (space == "attrs") build_attrs(tier);
     else if (space == "content") build_content(tier);
     else if (space == "types") build_types(tier);
-    else if (space == "wild") build_wild(tier);
+    else if (space == "wild") { build_wild(tier); build_wild_nons(); }
     else if (space == "assembly") build_assembly(tier);
     else return false;
     g_bspace = space;
